@@ -33,6 +33,8 @@ type LoadOptions struct {
 	Root string
 	Tags []string
 	Env  []string // extra GOOS/GOARCH settings
+	// Overlay replaces the content of source files (absolute name -> content): the helper-expanded program of expand.go
+	Overlay map[string][]byte
 }
 
 func baseEnv() []string {
@@ -63,6 +65,9 @@ func Load(opt LoadOptions) (*Program, error) {
 		Env:   append(baseEnv(), opt.Env...),
 		Tests: false,
 	}
+	if len(opt.Overlay) > 0 {
+		cfg.Overlay = opt.Overlay
+	}
 	if len(opt.Tags) > 0 {
 		cfg.BuildFlags = []string{"-tags=" + strings.Join(opt.Tags, ",")}
 	}
@@ -75,6 +80,9 @@ func Load(opt LoadOptions) (*Program, error) {
 	}
 	p := &Program{Root: opt.Root, Fset: fset, Pkgs: map[string]*packages.Package{}, SSAPkgs: map[string]*ssa.Package{}}
 	p.Config = fmt.Sprintf("root=%s tags=%v env=%v", opt.Root, opt.Tags, opt.Env)
+	if len(opt.Overlay) > 0 {
+		p.Config += fmt.Sprintf(" helper-expanded(%d files)", len(opt.Overlay))
+	}
 	var errs []string
 	packages.Visit(pkgs, nil, func(pk *packages.Package) {
 		for _, e := range pk.Errors {
